@@ -12,7 +12,7 @@ BUILDERS = ["disjunctive", "agent_task", "agent_task_with_jobs", "complete_agent
 
 
 def _n(chk, quick, thorough):
-    return thorough if chk.tier == "thorough" else quick
+    return min(thorough, 5 * quick) if chk.tier == "thorough" else quick   # thorough is capped at 5x quick: every tier must finish well inside its timeout on a shared machine
 
 
 def _gmc(chk, invariants, name, builder, rm_m=True, rm_j=True, **over):
